@@ -13,6 +13,7 @@ def SPEC(tier):
     d['stages'][0].sources = ['props/C18_pow2_multiple.cpp', 'props/C18_bitfield.cpp', 'props/C18_gtxint_fmult.cpp']
     # glm/simd/integer.h only exists when the SSE2 code path is enabled
     d['stages'].append(Stage('sse2', ['props/C18_simd.cpp'], flags=['-DGLM_FORCE_INTRINSICS', '-msse2']))
+    d['stages'].append(Stage('opt-allhdr', list(d['stages'][0].sources), flags=list(d['stages'][0].flags) + ['-include', 'glm/ext.hpp'], scale=0.25))  # every GLM header seen first: overload selection must not change
     d['assumptions'] = d['assumptions'] + [
         'power-of-two family judged for x>=1 only: the value at 0 is a convention and negative arguments have no documented meaning (GLM works on |x| and restores the sign); both are counted, not judged',
         'results that are not representable in the element type (ceil above the top power of two, multiples beyond the range) are counted, not judged',
